@@ -593,6 +593,81 @@ mod ffk {
 }
 '''
 
+SEED_NAMESPACES = '''\
+#[diplomat::bridge]
+mod ffi {
+    #[diplomat::opaque]
+    #[diplomat::attr(auto, namespace = "app")]
+    pub struct Hub(u8);
+
+    #[diplomat::opaque]
+    #[diplomat::attr(auto, namespace = "ns1")]
+    pub struct Part1(u8);
+
+    #[diplomat::opaque]
+    #[diplomat::attr(auto, namespace = "ns2")]
+    pub struct Part2(u8);
+
+    #[diplomat::opaque]
+    #[diplomat::attr(auto, namespace = "ns3")]
+    pub struct Part3(u8);
+
+    #[diplomat::opaque]
+    #[diplomat::attr(auto, namespace = "ns4")]
+    pub struct Part4(u8);
+
+    #[diplomat::opaque]
+    #[diplomat::attr(auto, namespace = "ns5")]
+    pub struct Part5(u8);
+
+    #[diplomat::opaque]
+    #[diplomat::attr(auto, namespace = "ns6")]
+    pub struct Part6(u8);
+
+    #[diplomat::opaque]
+    #[diplomat::attr(auto, namespace = "ns7")]
+    pub struct Part7(u8);
+
+    pub enum Plain {
+        P,
+        Q,
+    }
+
+    impl Hub {
+        pub fn part1(&self, p: &Part1) -> Box<Part1> {
+            unimplemented!()
+        }
+
+        pub fn part2(&self, p: &Part2) -> Box<Part2> {
+            unimplemented!()
+        }
+
+        pub fn part3(&self, p: &Part3) -> Box<Part3> {
+            unimplemented!()
+        }
+
+        pub fn part4(&self, p: &Part4) -> Box<Part4> {
+            unimplemented!()
+        }
+
+        pub fn part5(&self, p: &Part5) -> Box<Part5> {
+            unimplemented!()
+        }
+
+        pub fn part6(&self, p: &Part6) -> Box<Part6> {
+            unimplemented!()
+        }
+
+        pub fn part7(&self, p: &Part7) -> Box<Part7> {
+            unimplemented!()
+        }
+        pub fn plain(&self) -> Plain {
+            Plain::P
+        }
+    }
+}
+'''
+
 HAND_SEEDS = [
     ("basic", SEED_BASIC),
     ("two_modules", SEED_TWO_MODULES),
@@ -602,6 +677,7 @@ HAND_SEEDS = [
     ("strings", SEED_STRINGS),
     ("tiny", SEED_TINY),
     ("attrimpl", SEED_ATTRIMPL),
+    ("namespaces", SEED_NAMESPACES),
 ]
 
 # ------------------------------------------------------------------------------------------------------------------
@@ -927,9 +1003,9 @@ def _insert_name(kind, pos, existing):
     return med + "0Unref" + tag
 
 
-NONBRIDGE_KINDS = ("fn", "same-name-struct", "plain-mod", "use", "const", "struct+impl", "outer-impl")
+NONBRIDGE_KINDS = ("fn", "same-name-struct", "plain-mod", "use", "const", "struct+impl", "outer-impl", "foreign-bridge-mod", "bare-bridge-mod")
 NONBRIDGE_WHERE = {"fn": "top", "same-name-struct": "end", "plain-mod": "top", "use": "end", "const": "top", "struct+impl": "end",
-                   "outer-impl": "top"}
+                   "outer-impl": "top", "foreign-bridge-mod": "end", "bare-bridge-mod": "top"}
 
 
 def _nonbridge_text(kind, st, fpath):
@@ -951,6 +1027,12 @@ def _nonbridge_text(kind, st, fpath):
     if kind == "struct+impl":
         return ("\npub struct C14Plain {\n    pub v: i8,\n}\n\nimpl C14Plain {\n    pub fn new() -> Box<C14Plain> {\n"
                 "        Box::new(C14Plain { v: 0 })\n    }\n}\n")
+    if kind == "foreign-bridge-mod":
+        # a module of another binding generator: its attribute path ends in `bridge` but is not diplomat's
+        return ("\n#[cxx::bridge]\npub mod c14_cxx_ffi {\n    pub struct C14CxxShared {\n        pub v: u8,\n    }\n    pub enum C14CxxKind {\n"
+                "        A,\n        B,\n    }\n}\n")
+    if kind == "bare-bridge-mod":
+        return "\n#[bridge]\npub mod c14_bare_ffi {\n    pub struct C14BareShared {\n        pub w: u16,\n    }\n}\n"
     if kind == "outer-impl":
         # an inherent impl for a bridge type written outside the bridge (common for private helpers)
         if first_bridge is None:
@@ -1500,20 +1582,20 @@ def make_seeds(wd, tier):
 # real tool runs (21 per state; ~250 process starts per second on this box) fits the tier's wall budget.
 FULL = {}
 REDUCED = {"insert_combos": (("opaque", "first"), ("struct", "middle"), ("enum", "last")),
-           "nonbridge_kinds": ("same-name-struct", "plain-mod", "outer-impl")}
+           "nonbridge_kinds": ("same-name-struct", "plain-mod", "outer-impl", "foreign-bridge-mod")}
 PERMDEL = {"insert_combos": (), "nonbridge_kinds": (), "no_shadow": True}          # permutations and deletions only
 FT_QUICK = {"perm_files": ("attrs.rs",), "insert_files": ("attrs.rs", "result.rs"),
             "insert_combos": (("opaque", "first"), ("struct", "last"), ("enum", "middle")),
-            "nonbridge_files": ("lib.rs",), "nonbridge_kinds": ("same-name-struct", "plain-mod", "outer-impl", "fn")}
+            "nonbridge_files": ("lib.rs",), "nonbridge_kinds": ("same-name-struct", "plain-mod", "outer-impl", "fn", "foreign-bridge-mod", "bare-bridge-mod")}
 FT_FULL = {"nonbridge_files": ("lib.rs", "structs.rs", "attrs.rs")}
 
 PLAN = {
-    "quick": [("tiny", [FULL, PERMDEL]), ("attrimpl", [FULL]), ("basic", [FULL]), ("two_modules", [FULL]), ("cyclic", [FULL]),
+    "quick": [("tiny", [FULL, PERMDEL]), ("attrimpl", [FULL]), ("namespaces", [PERMDEL]), ("basic", [FULL]), ("two_modules", [FULL]), ("cyclic", [FULL]),
               ("interleaved", [FULL]), ("results", [FULL]), ("strings", [FULL]), ("feature_tests", [FT_QUICK])],
     # cheapest / broadest first: if the wall cap cuts the run short, the largest hand seed and the depth-3 seed are what is missing
     "thorough": [("feature_tests", [FT_FULL]), ("basic", [FULL, REDUCED]), ("two_modules", [FULL, REDUCED]),
                  ("cyclic", [FULL, REDUCED]), ("results", [FULL, REDUCED]), ("strings", [FULL, REDUCED]),
-                 ("attrimpl", [FULL, REDUCED]), ("tiny", [FULL, REDUCED, PERMDEL]), ("interleaved", [FULL, REDUCED])],
+                 ("attrimpl", [FULL, REDUCED]), ("namespaces", [FULL]), ("tiny", [FULL, REDUCED, PERMDEL]), ("interleaved", [FULL, REDUCED])],
 }
 WALL_CAP = {"quick": 85, "thorough": 540}
 
